@@ -52,7 +52,8 @@ FAMILY = {
     "int": "int", "int8": "int", "int16": "int", "int32": "int", "int64": "int",
     "uint8": "int", "uint16": "int", "uint32": "int", "uint64": "int",
     "float": "float", "float32": "float", "float64": "float",
-    "bool": "bool", "str": "str", "date": "date", "datetime": "datetime", "null": "null",
+    "bool": "bool", "str": "str", "date": "date", "datetime": "datetime", "datetime_ms": "datetime", "datetime_ns": "datetime",
+    "null": "null",
 }
 
 
